@@ -5,6 +5,8 @@ import VlsModel.Gen.FnTxUtil
 import VlsModel.Gen.FnHtlcTx
 import VlsModel.Gen.FnOnchainWrap
 import VlsModel.Gen.FnChannelSweep
+import VlsModel.Gen.FnHandlerSweep
+import VlsModel.Gen.FnNodeAllowlist
 import VlsModel.Lemmas.NodeWalletFn
 import VlsModel.Lemmas.Sweep
 import VlsModel.Lemmas.FnGen
@@ -1161,5 +1163,215 @@ theorem C09_fn_sign_htlc_tx_signs (val : Val) (cs : CS)
       exact ⟨fr, htlc, sh, ty, rfl, by cases u; exact hv, h.symm⟩
 
 end ChannelSweep
+
+/-! ## Round 9: the protocol handler's sweep helpers (`vls-protocol-signer/src/handler.rs`, `Gen/FnHandlerSweep.lean`)
+
+`sign_delayed_payment_to_us`, `sign_remote_htlc_to_us`, `sign_penalty_to_us`, `sign_local_htlc_tx`: the bodies behind the arms
+`SignDelayedPaymentToUs` / `SignAnyDelayedPaymentToUs`, `SignRemoteHtlcToUs` / `SignAnyRemoteHtlcToUs`, `SignPenaltyToUs` /
+`SignAnyPenaltyToUs`, `SignLocalHtlcTx` / `SignAnyLocalHtlcTx`.  For every instantiation of the externals: **the amount the
+channel is asked to sign for is the value of the `witness_utxo` of the PSBT input with the signed index** (panic if the
+index is out of range or the input has no witness utxo), the redeemscript is the message's `wscript`, the wallet path is the
+first output's derivation path (panic without outputs; evaluated after the channel lookup), the channel method is the one
+of the same sweep kind, and the reply carries that signature. -/
+section HandlerSweep
+open VlsModel.Gen.FnHandlerSweep
+
+variable {Nd Cid Tx Scr Oct SB DP Ch Sig PKb PK DS SK ET : Type}
+
+theorem C09_fn_sign_delayed_payment_to_us (SO : Oct → Scr) (XP : Psbt Scr → List DP) (RC : Nd → Cid → Rs.M Ch)
+    (SD : Ch → Tx → Nat → Nat → Scr → Nat → DP → Rs.M Sig) (RA : Sig → SB)
+    (node : Nd) (cid : Cid) (n : Nat) (tx : Tx) (psbt : Psbt Scr) (wscript : Oct) (input : Nat) :
+    sign_delayed_payment_to_us (ext_script_of_octets := SO) (ext_extract_psbt_output_paths := XP) (ext_Node_ready_channel := RC)
+        (ext_Channel_sign_delayed_sweep := SD) (ext_sign_tx_reply_all := RA) node cid n tx psbt wscript input
+      = (do let o ← Rs.index psbt.inputs input
+            let u ← Rs.unwrap o.witness_utxo
+            let ch ← RC node cid
+            let path ← Rs.index (XP psbt) 0
+            let sig ← SD ch tx input n (SO wscript) u.value path
+            pure (RA sig)) := rfl
+
+theorem C09_fn_sign_remote_htlc_to_us (PB : PKb → Rs.M PK) (SO : Oct → Scr) (XP : Psbt Scr → List DP) (RC : Nd → Cid → Rs.M Ch)
+    (SH : Ch → Tx → Nat → PK → Scr → Nat → DP → Rs.M Sig) (RA : Sig → SB)
+    (node : Nd) (cid : Cid) (point : PKb) (tx : Tx) (psbt : Psbt Scr) (wscript : Oct) (anchors : Bool) (input : Nat) :
+    sign_remote_htlc_to_us (ext_pubkey_of_bytes := PB) (ext_script_of_octets := SO) (ext_extract_psbt_output_paths := XP)
+        (ext_Node_ready_channel := RC) (ext_Channel_sign_counterparty_htlc_sweep := SH) (ext_sign_tx_reply_all := RA)
+        node cid point tx psbt wscript anchors input
+      = (do let pt ← PB point
+            let o ← Rs.index psbt.inputs input
+            let u ← Rs.unwrap o.witness_utxo
+            let ch ← RC node cid
+            let path ← Rs.index (XP psbt) 0
+            let sig ← SH ch tx input pt (SO wscript) u.value path
+            pure (RA sig)) := rfl
+
+theorem C09_fn_sign_penalty_to_us (SB' : DS → Rs.M SK) (SO : Oct → Scr) (XP : Psbt Scr → List DP) (RC : Nd → Cid → Rs.M Ch)
+    (SJ : Ch → Tx → Nat → SK → Scr → Nat → DP → Rs.M Sig) (RA : Sig → SB)
+    (node : Nd) (cid : Cid) (secret : DS) (tx : Tx) (psbt : Psbt Scr) (wscript : Oct) (input : Nat) :
+    sign_penalty_to_us (ext_secret_of_bytes := SB') (ext_script_of_octets := SO) (ext_extract_psbt_output_paths := XP)
+        (ext_Node_ready_channel := RC) (ext_Channel_sign_justice_sweep := SJ) (ext_sign_tx_reply_all := RA)
+        node cid secret tx psbt wscript input
+      = (do let sk ← SB' secret
+            let o ← Rs.index psbt.inputs input
+            let u ← Rs.unwrap o.witness_utxo
+            let ch ← RC node cid
+            let path ← Rs.index (XP psbt) 0
+            let sig ← SJ ch tx input sk (SO wscript) u.value path
+            pure (RA sig)) := rfl
+
+theorem C09_fn_sign_local_htlc_tx (SO : Oct → Scr) (RC : Nd → Cid → Rs.M Ch)
+    (SHT : Ch → Tx → Nat → Option PK → Scr → Nat → Scr → Rs.M (TypedSignature Sig ET)) (RT : Sig → ET → SB)
+    (node : Nd) (cid : Cid) (n : Nat) (tx : Tx) (psbt : Psbt Scr) (wscript : Oct) (anchors : Bool) (input : Nat) :
+    sign_local_htlc_tx (ext_script_of_octets := SO) (ext_Node_ready_channel := RC) (ext_Channel_sign_holder_htlc_tx := SHT)
+        (ext_sign_tx_reply_typed := RT) node cid n tx psbt wscript anchors input
+      = (do let o ← Rs.index psbt.inputs input
+            let u ← Rs.unwrap o.witness_utxo
+            let out0 ← Rs.index psbt.outputs 0
+            let ws ← Rs.unwrap out0.witness_script
+            let ch ← RC node cid
+            let sig ← SHT ch tx n none (SO wscript) u.value ws
+            pure (RT sig.sig sig.typ)) := rfl
+
+/-- a reply leaves `sign_delayed_payment_to_us` only with a signature the channel made for **the value the PSBT states for
+    the signed input**, the message's script and the first output's path -/
+theorem C09_fn_sign_delayed_payment_to_us_signed (SO : Oct → Scr) (XP : Psbt Scr → List DP) (RC : Nd → Cid → Rs.M Ch)
+    (SD : Ch → Tx → Nat → Nat → Scr → Nat → DP → Rs.M Sig) (RA : Sig → SB)
+    (node : Nd) (cid : Cid) (n : Nat) (tx : Tx) (psbt : Psbt Scr) (wscript : Oct) (input : Nat) (reply : SB)
+    (h : sign_delayed_payment_to_us (ext_script_of_octets := SO) (ext_extract_psbt_output_paths := XP) (ext_Node_ready_channel := RC)
+        (ext_Channel_sign_delayed_sweep := SD) (ext_sign_tx_reply_all := RA) node cid n tx psbt wscript input = .ok reply) :
+    ∃ o u ch path sig, psbt.inputs[input]? = some o ∧ o.witness_utxo = some u ∧ RC node cid = .ok ch ∧ (XP psbt)[0]? = some path
+      ∧ SD ch tx input n (SO wscript) u.value path = .ok sig ∧ reply = RA sig := by
+  rw [C09_fn_sign_delayed_payment_to_us] at h
+  cases ho : psbt.inputs[input]? with
+  | none => simp [Rs.index, ho, Rs.panic, bind, Except.bind] at h
+  | some o =>
+    cases hu : o.witness_utxo with
+    | none => simp [Rs.index, ho, Rs.unwrap, hu, Rs.panic, bind, Except.bind, pure, Except.pure] at h
+    | some u =>
+      cases hc : RC node cid with
+      | error e => simp [Rs.index, ho, Rs.unwrap, hu, hc, bind, Except.bind, pure, Except.pure] at h
+      | ok ch =>
+        cases hp : (XP psbt)[0]? with
+        | none => simp [Rs.index, ho, Rs.unwrap, hu, hc, hp, Rs.panic, bind, Except.bind, pure, Except.pure] at h
+        | some path =>
+          cases hs : SD ch tx input n (SO wscript) u.value path with
+          | error e => simp [Rs.index, ho, Rs.unwrap, hu, hc, hp, hs, bind, Except.bind, pure, Except.pure] at h
+          | ok sig =>
+            simp [Rs.index, ho, Rs.unwrap, hu, hc, hp, hs, bind, Except.bind, pure, Except.pure] at h
+            exact ⟨o, u, ch, path, sig, rfl, hu, rfl, rfl, hs, h.symm⟩
+
+end HandlerSweep
+
+/-! ## Round 9: allowlist maintenance (`Node::add_allowlist / set_allowlist / remove_allowlist`, node.rs, `Gen/FnNodeAllowlist.lean`)
+
+"Allowlisted" in clause 1 means: in the list the operator last established.  For every parser `P` and persister `U`
+(externals): the three functions compute the new list, hand **that** list to `update_allowlist` (what is stored = what is
+in memory), and fail without changing anything if parsing fails.  `set_allowlist` keeps nothing of the old list
+(`mem_set`), `remove_allowlist` leaves no removed entry (`mem_remove`) — the two stored seeds C09-r3-2 (persist before
+the removal) and C09-r5-2 (`retain` instead of `clear`) change the regenerated text and break these equalities. -/
+section NodeAllowlist
+open VlsModel.Gen.FnNodeAllowlist (Node NodeState Allowable)
+
+variable {S X K : Type} [DecidableEq S] [DecidableEq X] [DecidableEq K]
+
+theorem fold_state (f : List (Allowable S X K) → Allowable S X K → List (Allowable S X K)) (as : List (Allowable S X K)) :
+    ∀ n : Node S X K,
+    List.foldl (fun (self : Node S X K) a => { self with state := { self.state with allowlist := f self.state.allowlist a } }) n as
+      = { state := { allowlist := as.foldl f n.state.allowlist } } := by
+  induction as with
+  | nil => intro n; rfl
+  | cons a rest ih => intro n; simp only [List.foldl_cons]; rw [ih]
+
+/-- the new list of each operation -/
+def addedTo (old as : List (Allowable S X K)) : List (Allowable S X K) := as.foldl Rs.asetInsert old
+def removedFrom (old as : List (Allowable S X K)) : List (Allowable S X K) := as.foldl (fun l a => l.filter (fun e => e != a)) old
+
+theorem C09_fn_add_allowlist (P : List String → Rs.M (List (Allowable S X K))) (U : NodeState S X K → Rs.M Unit)
+    (n : Node S X K) (adds : List String) :
+    Node.add_allowlist (ext_self_parse_allowables := P) (ext_self_update_allowlist := U) n adds
+      = (do let as ← P adds
+            U { allowlist := addedTo n.state.allowlist as }
+            pure { state := { allowlist := addedTo n.state.allowlist as } }) := by
+  unfold Node.add_allowlist addedTo
+  cases P adds with
+  | error e => rfl
+  | ok as =>
+    simp only [Rs.bind_ok]
+    rw [fold_state Rs.asetInsert as n]
+
+theorem C09_fn_set_allowlist (P : List String → Rs.M (List (Allowable S X K))) (U : NodeState S X K → Rs.M Unit)
+    (n : Node S X K) (list : List String) :
+    Node.set_allowlist (ext_self_parse_allowables := P) (ext_self_update_allowlist := U) n list
+      = (do let as ← P list
+            U { allowlist := addedTo [] as }
+            pure { state := { allowlist := addedTo [] as } }) := by
+  unfold Node.set_allowlist addedTo
+  cases P list with
+  | error e => rfl
+  | ok as =>
+    simp only [Rs.bind_ok]
+    rw [fold_state Rs.asetInsert as { state := { allowlist := [] } }]
+
+theorem C09_fn_remove_allowlist (P : List String → Rs.M (List (Allowable S X K))) (U : NodeState S X K → Rs.M Unit)
+    (n : Node S X K) (removes : List String) :
+    Node.remove_allowlist (ext_self_parse_allowables := P) (ext_self_update_allowlist := U) n removes
+      = (do let as ← P removes
+            U { allowlist := removedFrom n.state.allowlist as }
+            pure { state := { allowlist := removedFrom n.state.allowlist as } }) := by
+  unfold Node.remove_allowlist removedFrom
+  cases P removes with
+  | error e => rfl
+  | ok as =>
+    simp only [Rs.bind_ok]
+    rw [fold_state (fun l a => l.filter (fun e => e != a)) as n]
+
+theorem mem_asetInsert (l : List (Allowable S X K)) (a x : Allowable S X K) : x ∈ Rs.asetInsert l a ↔ x ∈ l ∨ x = a := by
+  unfold Rs.asetInsert
+  by_cases h : l.contains a = true
+  · have : a ∈ l := by simpa using h
+    simp only [h, if_true]
+    constructor
+    · exact Or.inl
+    · rintro (h1 | rfl)
+      · exact h1
+      · exact this
+  · have hn : a ∉ l := by simpa using h
+    simp [hn]
+
+theorem mem_addedTo (as : List (Allowable S X K)) : ∀ (old : List (Allowable S X K)) (x : Allowable S X K),
+    x ∈ addedTo old as ↔ x ∈ old ∨ x ∈ as := by
+  induction as with
+  | nil => intro old x; simp [addedTo]
+  | cons a rest ih =>
+    intro old x
+    have := ih (Rs.asetInsert old a) x
+    simp only [addedTo, List.foldl_cons] at this ⊢
+    rw [this, mem_asetInsert]
+    simp only [List.mem_cons]
+    exact or_assoc
+
+/-- after `set_allowlist` exactly the entries of the new list are allowlisted: nothing of the old list survives -/
+theorem mem_set (as : List (Allowable S X K)) (x : Allowable S X K) : x ∈ addedTo [] as ↔ x ∈ as := by
+  simp [mem_addedTo]
+
+theorem mem_removedFrom (as : List (Allowable S X K)) : ∀ (old : List (Allowable S X K)) (x : Allowable S X K),
+    x ∈ removedFrom old as ↔ x ∈ old ∧ x ∉ as := by
+  induction as with
+  | nil => intro old x; simp [removedFrom]
+  | cons a rest ih =>
+    intro old x
+    have := ih (old.filter (fun e => e != a)) x
+    simp only [removedFrom, List.foldl_cons] at this ⊢
+    rw [this]
+    simp only [List.mem_filter, List.mem_cons, bne_iff_ne, ne_eq, not_or]
+    exact and_assoc
+
+/-- after `remove_allowlist` no removed entry is allowlisted (in memory and in what was handed to the persister) -/
+theorem mem_remove (old as : List (Allowable S X K)) (x : Allowable S X K) (hx : x ∈ as) : x ∉ removedFrom old as := by
+  rw [mem_removedFrom]; exact fun h => h.2 hx
+
+example : removedFrom [Allowable.Script 1, .XPub 2, .Payee (3 : Nat)] [Allowable.XPub 2] = [Allowable.Script 1, .Payee 3]
+    ∧ addedTo [] [Allowable.Script (5 : Nat), .Script 5, .XPub (6 : Nat)] = [Allowable.Script 5, Allowable.XPub 6 (PublicKey := Nat)] := by decide
+
+end NodeAllowlist
 
 end VlsModel.Props.C09Fn
